@@ -23,7 +23,7 @@ func ruleC14(prog *Program, rep *Report) {
 	rulePrecAgree(prog, rep)
 	ruleHexFn(prog, rep)
 	ruleLoopExit(prog, rep, 100, "jp") // the printers and the parser loop over fragments and ints
-	ruleFloatBits(prog, rep, "jp") // a float64 constant printed with 32 bits re-parses as another number
+	ruleFloatBits(prog, rep, "jp")     // a float64 constant printed with 32 bits re-parses as another number
 }
 
 // escape reader of the jp parser: the function that has a switch on a byte
